@@ -133,6 +133,10 @@ def _opacity_downgrade(ctx, rn, insts):
     for i in insts:
         if i.verdict != 'violation':
             continue
+        # clauses of these rules that point at something PRESENT in the code (a removal by computed position, a key
+        # taken from the wrong attribute, a guard that skips a delegation) do not depend on what is invisible
+        if i.construct.startswith(('REMOVES:', 'DELEGATE:', 'ATTACH:')) or ': KEY ' in i.construct:
+            continue
         top = i.func
         if not ctx.prog.has_func(top):
             continue
